@@ -125,7 +125,8 @@ def path_concrete(ctx):
         tot = sum(float(p(k)) for k in range(1, j + 1))
         ctx.require(not bad and abs(tot - 1) < 1e-9, "concrete-parameters", f"power_law({al!r}) deviates at k={bad}; sum over the truncated support = {tot}",
                     sig="concrete:power_law")
-    for al, ka in ((2, 10), (2.5, 5.0), (3, 2), (4, 50), (2.0, 0.7), (2, 0.05), (3.5, 0.07)):
+    # ... and the "no cut-off" end of the kappa range, where exp(-1/kappa) rounds to exactly 1.0 (the law degenerates to the pure power law)
+    for al, ka in ((2, 10), (2.5, 5.0), (3, 2), (4, 50), (2.0, 0.7), (2, 0.05), (3.5, 0.07), (2, 1e17), (3, float("inf")), (6, 1e300), (2.5, 1e9), (3.0, 4e16)):
         p = ctx.guard("factory-raised", scale_free_cut_off, al, ka)
         z = math.exp(-1.0 / ka)
         C, j, zk = 0.0, 1, z
